@@ -1288,10 +1288,22 @@ func (b *beacon) ReindexExpiration(treasures []treasure.Treasure) {
 		}
 		b.treasuresByOrder = filtered
 	}
+	// The key map is kept in step with the ordered slice. A save that slides the
+	// expiration of one of these records runs Delete + Add on this beacon under the
+	// record's guard only; when this re-insert fell between the two, Add found the
+	// key missing from the map and appended the record a second time, and every
+	// later expired-claim returned (and patched) it twice.
 	for _, t := range treasures {
+		key := t.GetKey()
+		if _, pending := incomingKeys[key]; !pending {
+			continue // the batch named the key twice
+		}
+		delete(incomingKeys, key)
 		if t.GetExpirationTime() == 0 {
+			delete(b.treasuresByKeys, key)
 			continue
 		}
+		b.treasuresByKeys[key] = t
 		b.treasuresByOrder = append(b.treasuresByOrder, t)
 	}
 	// Mirror SortByExpirationTimeAsc's comparator. We always sort
